@@ -43,7 +43,13 @@ THEOREMS = [
     "MjProof.C26.sig_too_large_error",
     "MjProof.C26.sig_outside_table_error",
     "MjProof.C26.getState_total",
+]
+# about the regenerated table; kept in a separate module so that a source change breaking the
+# table's well-formedness shows up as exactly these obligations
+THEOREMS_GEN = [
     "MjProof.C26.generated_table_wf",
+    "MjProof.C26.gen_size_eq_length_getState",
+    "MjProof.C26.gen_copy_eq_set_get",
 ]
 
 GEN_DIR = os.path.join(common.LEAN, "MjProof", "Gen")
@@ -448,7 +454,13 @@ def run(ctx):
                 "single bit, every pair, every all-but-one, the named unions, seeded random (thorough: all 2^mjNSTATE on three "
                 "models); a case is distinct by (model, op line); non-trivial = op on a signature with at least one non-empty component")
     info = run_translator(ctx)
+    ctx.checker_cmd = ("cd /verif && python3 translate/c26_tables.py && cd lean && lake build MjProof.Props.C26 "
+                       "MjProof.Props.C26Gen && lake env lean Audit/C26.lean")
     ctx.lean_props(THEOREMS)
+    ctx.lean_props(THEOREMS_GEN, module="MjProof.Props.C26Gen")
+    # one audit file listing everything (lean_props rewrites it per call)
+    with open(os.path.join(common.LEAN, "Audit", "C26.lean"), "w") as f:
+        f.write("import MjProof.Props.C26\nimport MjProof.Props.C26Gen\n" + "".join("#print axioms %s\n" % t for t in THEOREMS + THEOREMS_GEN))
     drv = ctx.driver("drv_c26") if info else None
     if info and not drv:
         pass
@@ -499,7 +511,8 @@ def run(ctx):
             nexh += 1
         sigs = signatures(ctx, nstate, named, exhaustive)
         if info:
-            dstreams.append((mid, s, sizes, diff_lines(ctx, mid, s, sizes, info, fields, sigs, light=exhaustive)))
+            # the Lean driver knows exactly the fields of the generated table
+            dstreams.append((mid, s, sizes, diff_lines(ctx, mid, s, sizes, info, [f for f in info["fields"] if f in known], sigs, light=exhaustive)))
         osigs = sigs if exhaustive or thorough else sigs
         ostreams.append((s, sizes, oracle_lines(ctx, mid, s, sizes, info or {"nstate": nstate}, fields, osigs, sizes.get("nkey", 0))))
     ctx.extra["exhaustive_scopes"] = ("all 2^%d signatures on %d models" % (nstate, nexh)) if nexh else \
@@ -517,11 +530,14 @@ def run(ctx):
                                [drv], [impl], all_lines, keyf=keyf)
         ctx.extra["differential_ops"] = len(all_lines)
         # real samples
-        if not bad and len(all_lines) > 40:
-            rc, outs, _ = ctx.run_lines([impl], all_lines[:60])
-            for i in (6, 7, 8):
-                if i < len(outs):
-                    ctx.sample({"op": all_lines[i][:160], "model_and_impl_output": outs[i][:160]})
+        if not bad and len(all_lines) > 400:
+            rc, outs, _ = ctx.run_lines([impl], all_lines[:400])
+            shown = set()
+            for l, o in zip(all_lines[:400], outs):
+                w = l.split()
+                if w[0] in ("size", "get", "extract", "copy") and w[0] not in shown and len(o) > 8 and not o.startswith("error"):
+                    shown.add(w[0])
+                    ctx.sample({"op": l[:160], "model_and_impl_output": o[:160]})
     elif info:
         ctx.oblige("correspondence state API vs Lean model", "correspondence", False, "driver did not build")
     else:
@@ -533,7 +549,7 @@ def run(ctx):
     ctx.extra["oracle_ops"] = orc.byop
     ctx.extra["oracle_failures"] = orc.nfail
     for s, sizes, lines in ostreams[:1]:
-        ctx.sample({"oracle_op": lines[6][:120] + " ...", "model": s[:160]})
+        ctx.sample({"oracle_op": lines[30][:60] + " ...", "model": s[:200], "sizes": sizes})
 
     def directed(ctx2):
         # a proof/tie obligation broke and the sampled oracle saw nothing: all 2^n signatures on up to three models
